@@ -302,6 +302,234 @@ def write_vmem(calls, rel, problems):
     for p in problems: lines.append(f'(* PROBLEM: {p} *)')
     open(os.path.join(OUT, 'VmemCalls.v'), 'w').write('\n'.join(lines) + '\n')
 
+# ------------------------------------------------------------------ arithmetic kernels -> Gallina (gen/Kernels.v)
+def fn_src(path, name, nth=0):
+    s = strip_comments(open(path).read())
+    ms = [m for m in re.finditer(r'\bfn\s+' + re.escape(name) + r'\b', s)]
+    if nth >= len(ms): raise SyntaxError(f'{name} not found in {path}')
+    m = ms[nth]; i = s.index('{', m.end()); sig = s[m.end():i]; d = 0; j = i
+    while True:
+        if s[j] == '{': d += 1
+        elif s[j] == '}':
+            d -= 1
+            if d == 0: break
+        j += 1
+    params = [q.group(1) for q in re.finditer(r'(\w+)\s*:\s*usize', sig)]
+    return params, s[i + 1:j]
+
+KTOK = re.compile(r'\s*(?:(\d+)|([A-Za-z_][A-Za-z_0-9]*)|(=>|<=|>=|==|\|\||&&|[-+*/%<>=!(){};,.:&|]))')
+def klex(src):
+    out = []; pos = 0; src = src.strip()
+    while pos < len(src):
+        m = KTOK.match(src, pos)
+        if not m: raise SyntaxError('lex: ' + src[pos:pos + 30])
+        pos = m.end(); out.append(m.group(1) or m.group(2) or m.group(3))
+    return out
+
+class KP:
+    def __init__(s, toks): s.t = toks; s.i = 0
+    def peek(s, k=0): return s.t[s.i + k] if s.i + k < len(s.t) else None
+    def eat(s, x=None):
+        t = s.peek()
+        if x is not None and t != x: raise SyntaxError(f'expected {x!r} got {t!r}: {s.t[max(0, s.i - 6):s.i + 6]}')
+        s.i += 1; return t
+    def block(s, end='}'):
+        stmts = []
+        while s.peek() != end and s.peek() is not None:
+            if s.peek() == 'let':
+                s.eat(); name = s.eat(); s.eat('='); e = s.expr(); s.eat(';'); stmts.append(('let', name, e))
+            elif s.peek() == 'unsafe' and s.peek(1) == '{':
+                s.eat(); s.eat('{'); inner = s.block('}'); s.eat('}')
+                if s.peek() == ';': s.eat()
+                stmts.append(('block', inner))
+            elif s.peek() == 'if':
+                e = s.expr()
+                if s.peek() == ';': s.eat()
+                stmts.append(('expr', e))
+            else:
+                e = s.expr()
+                if s.peek() == '=':
+                    s.eat(); rhs = s.expr(); s.eat(';'); stmts.append(('assign', e, rhs))
+                elif s.peek() == ';': s.eat(); stmts.append(('expr', e))
+                else: stmts.append(('ret', e))
+        return stmts
+    def expr(s):
+        l = s.cmp()
+        while s.peek() == '||':
+            s.eat(); r = s.cmp(); l = ('or', l, r)
+        return l
+    def cmp(s):
+        l = s.add()
+        if s.peek() in ('<', '<=', '>', '>=', '=='):
+            op = s.eat(); r = s.add(); return ('cmp', op, l, r)
+        return l
+    def add(s):
+        l = s.post()
+        while s.peek() == '+':
+            s.eat(); r = s.post(); l = ('add', l, r)
+        return l
+    def post(s):
+        e = s.atom()
+        while s.peek() == '.':
+            s.eat(); name = s.eat()
+            if s.peek() == '(':
+                s.eat(); args = []
+                while s.peek() != ')':
+                    args.append(s.expr())
+                    if s.peek() == ',': s.eat()
+                s.eat(')'); e = ('mcall', e, name, args)
+            else: e = ('field', e, name)
+        return e
+    def atom(s):
+        t = s.eat()
+        if t == '(':
+            e = s.expr(); s.eat(')'); return e
+        if t == 'match':
+            c = s.expr(); s.eat('{'); arms = {}
+            for _ in range(2):
+                k = s.eat(); s.eat('=>'); arms[k] = s.expr()
+                if s.peek() == ',': s.eat()
+            s.eat('}')
+            if set(arms) != {'true', 'false'}: raise SyntaxError('match arms ' + str(list(arms)))
+            return ('ite', c, arms['true'], arms['false'])
+        if t == 'if':
+            c = s.expr(); s.eat('{'); a = s.block('}'); s.eat('}'); bb = []
+            if s.peek() == 'else': s.eat(); s.eat('{'); bb = s.block('}'); s.eat('}')
+            return ('ifb', c, a, bb)
+        if t is None: raise SyntaxError('unexpected end')
+        if t.isdigit(): return ('num', t)
+        return ('var', t)
+
+class KGen:
+    """code generation into the monad of Model/KernelM.v"""
+    TRANSPARENT = {'buffer', 'inner', 'inner_mut'}
+    def __init__(s): s.n = 0
+    def fresh(s): s.n += 1; return f'v{s.n}'
+    def bindv(s, rhs, k):
+        v = s.fresh(); return f'{v} <- {rhs} ;; ' + k(v)
+    def expr(s, e, k):
+        kind = e[0]
+        if kind == 'num': return k(e[1])
+        if kind == 'var':
+            if e[1] == 'self': return k('self')
+            return k(e[1])
+        if kind == 'field':
+            f = e[2]
+            if f == 'index': return s.bindv('get_index', k)
+            if f == 'cached_avail': return s.bindv('get_cached', k)
+            if f in s.TRANSPARENT: return s.expr(e[1], k)
+            raise SyntaxError('field ' + f)
+        if kind == 'add': return s.expr(e[1], lambda a: s.expr(e[2], lambda bb: s.bindv(f'uadd {a} {bb}', k)))
+        if kind == 'mcall':
+            recv, name, args = e[1], e[2], e[3]
+            if name in ('unchecked_add', 'unchecked_sub', 'saturating_sub'):
+                op = {'unchecked_add': 'uadd', 'unchecked_sub': 'usub', 'saturating_sub': 'ssub'}[name]
+                return s.expr(recv, lambda a: s.expr(args[0], lambda bb: s.bindv(f'{op} {a} {bb}', k)))
+            if name in s.TRANSPARENT and not args: return s.expr(recv, k)
+            if name in ('_index', 'index') and not args: return s.bindv('get_index', k)
+            if name == 'cached_avail' and not args: return s.bindv('get_cached', k)
+            if name == 'succ_index' and not args: return s.bindv('succ_index E', k)
+            if name in ('buf_len', 'inner_len') and not args: return s.bindv('buf_len E', k)
+            if name == '_available' and not args: return s.bindv('avail', k)
+            if name == 'set_local_index': return s.expr(args[0], lambda a: f'set_index {a} ;;; ' + k('tt'))
+            if name == 'set_cached_avail': return s.expr(args[0], lambda a: f'set_cached {a} ;;; ' + k('tt'))
+            if name == 'set_atomic_index': return s.expr(args[0], lambda a: f'publish {a} ;;; ' + k('tt'))
+            if name == 'advance_local': return s.expr(args[0], lambda a: f'g_advance_local E {a} ;;; ' + k('tt'))
+            raise SyntaxError('method ' + name)
+        if kind == 'cmp':
+            op = {'<': 'Nat.ltb', '<=': 'Nat.leb', '>=': 'geb', '>': 'gtb', '==': 'Nat.eqb'}[e[1]]
+            return s.expr(e[2], lambda a: s.expr(e[3], lambda bb: k(f'({op} {a} {bb})')))
+        if kind == 'or':
+            return s.expr(e[1], lambda a: s.bindv(f'orelse {a} ({s.expr(e[2], lambda x: "ret " + x)})', k))
+        if kind == 'ite':
+            return s.expr(e[1], lambda c: s.bindv(f'(if {c} then ({s.expr(e[2], lambda x: "ret " + x)}) else ({s.expr(e[3], lambda x: "ret " + x)}))', k))
+        if kind == 'ifb':
+            return s.expr(e[1], lambda c: s.bindv(f'(if {c} then ({s.block(e[2])}) else ({s.block(e[3])}))', k))
+        raise SyntaxError('expr ' + kind)
+    def block(s, stmts):
+        if not stmts: return 'ret tt'
+        st, rest = stmts[0], stmts[1:]
+        if st[0] == 'let': return s.expr(st[2], lambda a: f'let {st[1]} := {a} in ' + s.block(rest))
+        if st[0] == 'block': return s.block(st[1] + rest)
+        if st[0] == 'assign':
+            tgt = st[1]
+            if tgt[0] != 'field' or tgt[2] not in ('index', 'cached_avail'): raise SyntaxError('assignment target')
+            setter = {'index': 'set_index', 'cached_avail': 'set_cached'}[tgt[2]]
+            return s.expr(st[2], lambda a: f'{setter} {a} ;;; ' + s.block(rest))
+        if st[0] == 'expr':
+            if not rest: return s.expr(st[1], lambda a: 'ret tt')
+            return s.expr(st[1], lambda a: s.block(rest))
+        if st[0] == 'ret': return s.expr(st[1], lambda a: f'ret {a}')
+        raise SyntaxError(st[0])
+
+KERNELS = [  # (Coq name, file, fn, nth, extra Coq parameters, result type)
+    ('g_advance_local', 'iterators/iterator_trait.rs', 'advance_local', 0, '', 'unit'),
+    ('g_advance', 'iterators/iterator_trait.rs', '_advance', 0, '', 'unit'),
+    ('g_check', 'iterators/iterator_trait.rs', 'check', 0, '(avail : M nat)', 'bool'),
+    ('g_prod_available', 'iterators/sync_iterators/prod_iter.rs', '_available', 0, '', 'nat'),
+    ('g_work_available', 'iterators/sync_iterators/work_iter.rs', '_available', 0, '', 'nat'),
+    ('g_cons_available', 'iterators/sync_iterators/cons_iter.rs', '_available', 0, '', 'nat'),
+    ('g_cons_reset', 'iterators/sync_iterators/cons_iter.rs', 'reset_index', 0, '', 'unit'),
+    ('g_work_reset', 'iterators/sync_iterators/work_iter.rs', 'reset_index', 0, '', 'unit'),
+    ('g_set_index', 'iterators/sync_iterators/detached.rs', 'set_index', 0, '', 'unit'),
+    ('g_dreset', 'iterators/sync_iterators/detached.rs', 'reset_index', 0, '', 'unit'),
+    ('g_dadvance', 'iterators/sync_iterators/detached.rs', 'advance', 0, '', 'unit'),
+    ('g_go_back', 'iterators/sync_iterators/detached.rs', 'go_back', 0, '', 'unit'),
+    ('g_sync_index', 'iterators/sync_iterators/detached.rs', 'sync_index', 0, '', 'unit'),
+    ('g_go_back_async', 'iterators/async_iterators/detached.rs', 'go_back', 0, '', 'unit'),
+    ('g_sync_index_async', 'iterators/async_iterators/detached.rs', 'sync_index', 0, '', 'unit'),
+    ('g_dadvance_async', 'iterators/async_iterators/detached.rs', 'advance', 0, '', 'unit'),
+]
+
+def extract_kernels():
+    out = []; problems = []
+    for name, f, fn, nth, extra, ty in KERNELS:
+        try:
+            params, body = fn_src(os.path.join(REPO, 'src', f), fn, nth)
+            code = KGen().block(KP(klex(body)).block(None))
+            ps = ' '.join(f'({q} : nat)' for q in params)
+            out.append(f'(* {f} :: {fn} *)\nDefinition {name} (E : env) {extra} {ps} : M {ty} :=\n  {code}.\n')
+        except (SyntaxError, ValueError, IndexError) as ex:
+            problems.append(f'{f}::{fn}: outside the translatable subset: {ex}')
+            out.append(f'(* {name}: OUTSIDE SUBSET: {ex} *)\nDefinition {name} (E : env) {extra} : M {ty} := fun _ _ => None.\n')
+    # next_chunk: the split condition and the two lengths (the slices themselves are pointer arithmetic)
+    try:
+        txt = strip_comments(open(os.path.join(REPO, 'src/iterators/iterator_trait.rs')).read())
+        chunks = []
+        for m in re.finditer(r'#\[cfg\(not\(feature = "vmem"\)\)\]\s*#\[inline\]\s*fn\s+(next_chunk(?:_mut)?)\b(.*?)\n    \}', txt, re.S):
+            bodyc = m.group(2)
+            cond = re.search(r'if\s+(.*?)\s*\{', bodyc[bodyc.index('let ptr'):]).group(1)
+            lens = []
+            for fm in re.finditer(r'from_raw_parts(?:_mut)?\s*\(', bodyc):
+                a, _ = args_of(bodyc, fm.end() - 1)
+                if len(a) == 2: lens.append((a[0].strip(), a[1].strip()))
+            if len(lens) != 3: raise SyntaxError(f'{m.group(1)}: expected 3 slices, found {len(lens)}')
+            g = KGen()
+            cc = g.expr(KP(klex(cond)).expr(), lambda x: 'ret ' + x)
+            hl = g.expr(KP(klex(lens[0][1])).expr(), lambda x: 'ret ' + x)
+            tl = g.expr(KP(klex(lens[1][1])).expr(), lambda x: 'ret ' + x)
+            nl = g.expr(KP(klex(lens[2][1])).expr(), lambda x: 'ret ' + x)
+            chunks.append((m.group(1), cc, hl, tl, nl, [x[0] for x in lens]))
+        if len(chunks) != 2: raise SyntaxError(f'expected next_chunk and next_chunk_mut, found {len(chunks)}')
+        for nm, cc, hl, tl, nl, ptrs in chunks:
+            ok_ptrs = re.sub(r'\s', '', ptrs[0]) == 'ptr.add(self._index())' and re.sub(r'\s', '', ptrs[1]) == 'ptr' and re.sub(r'\s', '', ptrs[2]) == 'ptr.add(self._index())'
+            if not ok_ptrs: problems.append(f'{nm}: unexpected slice base pointers {ptrs}')
+            out.append(f'(* iterators/iterator_trait.rs :: {nm}: wrap condition, head / tail lengths when wrapping, head length otherwise *)\n'
+                       f'Definition g_{nm}_cond (E : env) (count : nat) : M bool :=\n  let len := e_len E in {cc}.\n'
+                       f'Definition g_{nm}_head (E : env) (count : nat) : M nat :=\n  let len := e_len E in {hl}.\n'
+                       f'Definition g_{nm}_tail (E : env) (count : nat) : M nat :=\n  let len := e_len E in {tl}.\n'
+                       f'Definition g_{nm}_nowrap (E : env) (count : nat) : M nat :=\n  let len := e_len E in {nl}.\n')
+    except (SyntaxError, ValueError, AttributeError) as ex:
+        problems.append(f'next_chunk: {ex}')
+    return out, problems
+
+def write_kernels(defs, problems):
+    lines = ['(* GENERATED by tools/extract_facts.py from /repo/src on every run - do not edit *)',
+             'From Coq Require Import List Arith Bool.', 'Require Import MRB.Model.KernelM.', ''] + defs
+    lines.append(f'Definition extractor_clean : bool := {b(not problems)}.')
+    for p in problems: lines.append(f'(* PROBLEM: {p} *)')
+    open(os.path.join(OUT, 'Kernels.v'), 'w').write('\n'.join(lines) + '\n')
+
 def b(x): return 'true' if x else 'false'
 
 def write_send(clauses, problems, structure_ok):
@@ -334,6 +562,10 @@ def main():
     write_vmem(vc, vr, vp)
     for x in vp: print('extract_facts: PROBLEM:', x)
     print('extract_facts: vmem calls', vc, vr)
+    kd, kp = extract_kernels()
+    write_kernels(kd, kp)
+    for x in kp: print('extract_facts: PROBLEM:', x)
+    print(f'extract_facts: {len(kd)} kernel definitions')
     loops, wakers = extract_structure()
     write_structure(loops, wakers)
     print(f'extract_facts: {len(loops)} loops, {len(wakers)} wake calls')
